@@ -458,6 +458,7 @@ def run(report, p):
                  "e.g. `-h md5 -h xxh64` then `-h xxh64 -h sha1` on an untouched file aborts with AssertionError('no hash entry found for new hash')", construct="sealer never generates the validator's reference format")
 
     # ---- rules shared with other properties (same mechanism, same rule, reported under every property it can break)
+    include_rules(report, p, 'c08', ['R8.8'], 'whether a digest is original / verified / failed / new is decided against the entries of the history that holds the file: lookups are made on the routed history with the routed path')
     include_rules(report, p, 'c03', ['R3.11'], 'a failed check is only recorded if reporting it cannot raise: the mismatch is logged before the generation is written')
     include_rules(report, p, 'c08', ['R8.1'], 'the first recorded value is looked up in the history that owns the path')
     include_rules(report, p, 'c08', ['R8.2'], 'the first recorded value lives in the deepest history: the mapping of nested histories must be transitive, or a deeper file gets a second original in an ancestor')
